@@ -134,6 +134,28 @@ Theorem filtered_does_not_disturb :
 Proof. exact CacheProofs.filtered_does_not_disturb. Qed.
 Print Assumptions filtered_does_not_disturb.
 
+(* the property's oracle over observations alone (Cache.check_obs: one reply per request, naming it, equal to the
+   evaluation -- NOTFOUND for nil -- of a storage fetch of the request's own pair that is not later than the reply and
+   not older than L + slack when the request was made) accepts what the storage channel and the requesters see of
+   EVERY complete run of the model in which requests are issued before their first step and evaluation (fetch to
+   store) takes at most slack.  This is the oracle the check evaluates on the implementation's observations. *)
+Theorem check_obs_sound :
+  forall (data value : Type) (evalf : Z -> data -> value) (filt : value -> value)
+         (lookup : Z -> name -> name -> option data) (L : Z) (fixed0 : bool)
+         (value_eqb : value -> value -> bool),
+    (forall v, value_eqb v v = true) ->
+    forall (qs : list oreq) (sched : list (nat * Z)) (slack : Z),
+    cfg_ok L fixed0 ->
+    let tr := trace (run data value evalf lookup mk_key split_key L fixed0 (map (fun q => (q_c q, q_g q)) qs) sched) in
+    (forall i, (i < length qs)%nat -> (5 <= occ i sched)%nat) ->
+    (forall i t rc rg c g v s cr r start q,
+        In (EvReply i t rc rg c g v s cr r start) tr -> nth_error qs i = Some q ->
+        cr - s <= slack /\ q_t q <= start) ->
+    Forall (fun z => z = 0)
+           (check_obs data value evalf filt L value_eqb slack qs (obs_looks data value tr) (obs_reps data value filt qs tr)).
+Proof. exact CacheProofs.check_obs_sound. Qed.
+Print Assumptions check_obs_sound.
+
 (* ---- non-vacuity ---- *)
 
 (* the configuration of the repaired code satisfies cfg_ok for every lifetime, 0 included *)
@@ -171,4 +193,22 @@ Example ex_refresh_fetch :
 Proof. vm_compute. tauto. Qed.
 (* steps taken: an error path needs five steps (thread 0, 3), a good path four; request 4 answered a cached NOTFOUND in two *)
 Example ex_steps : map (fun i => occ i ex_sched) [0; 1; 2; 3; 4; 5]%nat = [5; 4; 4; 5; 2; 4]%nat.
+Proof. vm_compute. reflexivity. Qed.
+
+(* the oracle on the observations of that run: accepted; and it is not vacuous -- with a lifetime of 10 instead of 1000
+   ... the same observations are still fine (nothing was served from the cache across 10), but request 4 claiming the
+   data of fetch 4 is rejected (code 3), and a reply under another name is rejected (code 2) *)
+Definition ex_qs : list oreq :=
+  [mkOreq [97; 32; 98] [99] true 3; mkOreq [97] [98; 32; 99] true 1; mkOreq [97] [98; 32; 99] false 2;
+   mkOreq [97] [98; 32; 99] true 2000; mkOreq [97] [98; 32; 99] true 2100].
+Definition ex_tr := trace (run Z Z (fun _ d => d) ex_lookup mk_key split_key 1000 true ex_reqs ex_sched).
+Example ex_oracle_accepts :
+  check_obs Z Z (fun _ d => d) (fun v => v) 1000 Z.eqb 10 ex_qs (obs_looks Z Z ex_tr) (obs_reps Z Z (fun v => v) ex_qs ex_tr)
+  = [0; 0; 0; 0; 0].
+Proof. vm_compute. reflexivity. Qed.
+Example ex_oracle_rejects :
+  check_obs Z Z (fun _ d => d) (fun v => v) 1000 Z.eqb 10 ex_qs (obs_looks Z Z ex_tr)
+            (mkOrep Z 4 2101 [97] [98; 32; 99] (Some 40) :: mkOrep Z 3 2004 [97] [98; 32] None
+             :: skipn 2 (obs_reps Z Z (fun v => v) ex_qs ex_tr))
+  = [0; 0; 0; 2; 3].
 Proof. vm_compute. reflexivity. Qed.
